@@ -279,6 +279,39 @@ def run(ctx):
             report("guard", "rho_i = 0 guard: ideal-gas Helmholtz energy with an absent component differs from the subset system",
                         {"broken": "IdealGasHelmC10.comp_term_zero on the implementation (oracle)", "case": gcase}, found_input=True)
 
+    # ------------------------------------------------------------------ part F: DFT profiles (entropy / internal energy density selectors)
+    n_dft = 0
+    for c in impl["dft"]:
+        if "error" in c:
+            report("dft_error", "DFT profile with ideal gas could not be evaluated: %s" % c, {"broken": "DFTProfile::entropy_density / internal_energy_density", "case": c}, False)
+            continue
+        okf, lemma, err = file_status(c["file"])
+        goals_total += len(c["goals"])
+        where = {k: c[k] for k in ("functional", "records", "models", "T")}
+        for pt in c["points"]:
+            n_dft += 2
+            ds = pt["s_total"] - pt["s_residual"]
+            du = pt["u_total"] - pt["u_residual"]
+            if not abs(ds - pt["s_ideal_bulk"]) <= 1e-9 * pt["s_scale"]:
+                report("dft_entropy", "DFT profile: entropy_density(Total) - entropy_density(Residual) = %.12g differs from the ideal-gas entropy density "
+                       "%.12g of the bulk state with the same T and partial densities %s (reduced units, T = %.6g K)" % (ds, pt["s_ideal_bulk"], pt["rho"], c["T"]),
+                       {"broken": "C10_total_is_sum / C10_dft_ideal_entropy_density on DFTProfile::entropy_density (oracle)", "profile": where, "point": pt}, True)
+            if not abs(du - pt["u_ideal_bulk"]) <= 1e-9 * pt["u_scale"]:
+                report("dft_energy", "DFT profile: internal_energy_density(Total) - (Residual) = %.12g differs from the bulk ideal-gas value %.12g at partial densities %s" %
+                       (du, pt["u_ideal_bulk"], pt["rho"]),
+                       {"broken": "C10_total_is_sum on DFTProfile::internal_energy_density (oracle)", "profile": where, "point": pt}, True)
+        if okf:
+            goals_ok += len(c["goals"])
+        else:
+            pt = next((p for p in c["points"] if lemma in p["goals"]), None)
+            report("dft_model", "model of the local ideal-gas Helmholtz energy density and DFTProfile disagree at %s (T = %s, partial densities %s)" %
+                   (lemma, c["T"], pt and pt["rho"]),
+                   {"broken": "correspondence gen/C10/%s lemma %s (dftS: entropy density = -dA_dT(T,1,rho); dftU: internal energy density)" % (c["file"], lemma),
+                    "profile": where, "point": pt, "coq_error": err}, True)
+    if impl["dft"] and "points" in impl["dft"][0]:
+        c = impl["dft"][0]
+        samples.append({"dft_profile": c["functional"], "records": c["records"], "T": c["T"], "point": c["points"][2]})
+
     # ------------------------------------------------------------------ part C: State API
     n_sum = 0
     worst_sum = 0.0
@@ -306,6 +339,12 @@ def run(ctx):
                     and abs(sr - mc["getter"][1]) <= tol and abs(stot - mc["getter"][2]) <= tol):
                 report("mu_contributions", "chemical_potential_contributions: Total is not IdealGas ++ Residual / sums differ from chemical_potential on %s" % s["config"],
                        {"broken": "C10_total_is_sum on chemical_potential_contributions (oracle)", "state": where, "contributions": mc}, True)
+        sp = s.get("subset_permutation")
+        if sp:
+            pairs = [sp["A"], sp["S"], sp["cp"]] + [list(z) for z in zip(*sp["mu"])]
+            if any(a is None or b is None or not abs(a - b) <= 1e-11 * (abs(a) + abs(b)) + 1e-300 for a, b in pairs):
+                report("subset_permutation", "ideal-gas properties change under relabelling with EquationOfState::subset(%s) on %s" % (sp["perm"], s["config"]),
+                       {"broken": "ideal-gas part of a relabelled mixture (A, S, c_p, mu_i of Contributions::IdealGas; oracle)", "state": where, "values": sp}, True)
         dp = abs(s["p_ig_SI"] - s["rho_SI"] * Q_RGAS * s["T_SI"]) / abs(s["p_ig_SI"])
         if not dp <= 1e-12:
             report("p_si_oracle", "ideal-gas pressure is not rho R T in SI on %s" % s["config"],
@@ -385,6 +424,8 @@ def run(ctx):
         "record_counts": impl["counts"],
         "mixture_cases": len(impl["mixtures"]),
         "guard_cases": n_guard,
+        "dft_profiles": len(impl["dft"]),
+        "dft_point_evaluations": n_dft,
         "trait_identity_evaluations": n_ident,
         "trait_sweep_states": len(impl["trait_sweep"]),
         "state_cases": len(impl["states"]),
